@@ -105,6 +105,7 @@ type Ctx struct {
 	ViolCount   uint64
 	Notes       map[string]uint64 // named counters (caps hit, bounds completed, ...)
 	Info        map[string]string // free-form facts from serial spaces
+	ClassCounts map[string]uint64 // violations per class in this chunk
 
 	property string
 	space    string
@@ -151,6 +152,12 @@ func (c *Ctx) Note(k string, n uint64) { c.Notes[k] += n }
 // Fail records a violation of the property for the current case.
 func (c *Ctx) Fail(class, input, detail string) {
 	c.ViolCount++
+	if c.ClassCounts == nil {
+		c.ClassCounts = map[string]uint64{}
+	}
+	if len(c.ClassCounts) < 300 || c.ClassCounts[class] > 0 {
+		c.ClassCounts[class]++
+	}
 	n := c.classes[class]
 	c.classes[class] = n + 1
 	if n >= 2 || len(c.Viols) >= 200 {
@@ -208,6 +215,7 @@ type chunkResult struct {
 	Info        map[string]string `json:"info"`
 	Viols       []Violation       `json:"viols"`
 	ViolCount   uint64            `json:"viol_count"`
+	ClassCounts map[string]uint64 `json:"class_counts"`
 	Panic       string            `json:"panic,omitempty"`
 	PanicIndex  uint64            `json:"panic_index,omitempty"`
 }
